@@ -53,7 +53,7 @@ Definition best_sizes (signed : bool) (n_word n_frac : option Z) (n_word_max : Z
                   | Some ns => Ok (fold_right Z.max 0 ns)
                   | None => Unmodelled end
         end) (fun nfr =>
-  if nfr <? 0 then Unmodelled else          (* 1 << n_frac raises for a negative count *)
+  (* a negative fraction length (given by the caller): the values are divided by 2^-n_frac, truncated like the products *)
   let vmax := scaled_trunc (dy_max vals) nfr in
   let vmin := scaled_trunc (dy_min vals) nfr in
   match int_loop 400 (n_word_max - sign + nfr) vmax vmin 0 with      (* while n_int < n_word_max - sign + n_frac: at most n_word_max - sign bits of integer part *)
